@@ -849,6 +849,24 @@ def r01k(ctx):
                     else:
                         ctx.bad(cid, mod.loc(node), f"`{unparse(node)}` is read after isinstance({subj}, {K.name}), but {lack} re-declare _parameters without `{attr}`: with such a {subj} the optimizer raises ValueError(\"'{attr}' is not in list\") on a query that computes fine un-optimized")
     ctx.floor("parameter reads under isinstance tests", n, 40)
+    # (b) a guard `'<p>' in x._parameters` exists to protect a READ of x.<p>: if nothing under the guard reads the parameter, the test it
+    # protected was removed and the guard now stands for it (a repartition "has the parameter new_partitions" is not "was asked for a
+    # partition count": the parameter may hold None)
+    g = 0
+    for c, mod, fn in _rewrite_functions(model):
+        fq = qual(c, fn) if c is not None else f"{mod.name.split('.', 1)[-1]}.{fn.name}"
+        for cmp_ in (x for x in ast.walk(fn) if isinstance(x, ast.Compare) and len(x.ops) == 1 and isinstance(x.ops[0], ast.In) and isinstance(x.left, ast.Constant) and isinstance(x.left.value, str) and isinstance(x.comparators[0], ast.Attribute) and x.comparators[0].attr == "_parameters"):
+            subj = dotted(cmp_.comparators[0].value)
+            if not subj or subj == "self":
+                continue
+            pname = cmp_.left.value
+            g += 1
+            reads = [x for x in ast.walk(fn) if (isinstance(x, ast.Attribute) and x.attr == pname and dotted(x.value) == subj) or (isinstance(x, ast.Call) and isinstance(x.func, ast.Attribute) and x.func.attr == "operand" and dotted(x.func.value) == subj and x.args and isinstance(x.args[0], ast.Constant) and x.args[0].value == pname)]
+            cid = f"{fq}:guard-without-read:{subj}.{pname}"
+            if reads:
+                ctx.ok(cid, mod.loc(cmp_), f"the guard protects a read of {subj}.{pname}")
+            else:
+                ctx.bad(cid, mod.loc(cmp_), f"`{unparse(cmp_)}` is tested but {subj}.{pname} is never read: the condition on the parameter's VALUE that the guard protected is gone, so the rule now fires for every {subj} whose class merely declares `{pname}` (e.g. a Repartition given divisions, whose new_partitions is None)")
 
 
 # ---------------------------------------------------------------------------------------------
